@@ -105,8 +105,11 @@ def real_line(line):
 
 def run_driver(drv, jobs, wd, res, tag):
     """runs flydrv coop on the jobs; returns per job the list of output lines (None when the driver died there)."""
-    out = [None] * len(jobs); pos = 0
+    out = [None] * len(jobs); pos = 0; failures = 0
     while pos < len(jobs):
+        if failures >= 6:
+            res.cov.setdefault("notes", []).append("%s: driver stopped after %d failing jobs; %d jobs not run" % (tag, failures, len(jobs) - pos))
+            break
         p = subprocess.run([drv, "coop"], input="\n".join(jobs[pos:]) + "\n", capture_output=True, text=True, timeout=3000)
         cur = None; n = 0
         for line in p.stdout.split("\n"):
@@ -123,6 +126,7 @@ def run_driver(drv, jobs, wd, res, tag):
         bad = pos + n
         if bad >= len(jobs):
             break
+        failures += 1
         if p.returncode == 3 and n >= 1:      # DEADLOCK: the driver printed the job (with "E") and exited
             bad = pos + n - 1
             res.violations.append(("the real ConcurrentFlyweight deadlocked (every unfinished thread waits for a mutex): %s | job %r"
@@ -267,8 +271,12 @@ def validate_group(res, wd, histories, reserved):
         hs = [h for h in histories if h[1] and h[1][0]["e"] == "reset" and h[1][0]["b"] == reserved]
         consts = ("CONSTANT Threads = {0, 1, 2, 3, 4, 5, 6, 7, 8}\nCONSTANT Values = {}\nCONSTANT Indices = {}\n"
                   "CONSTANT NilIndices <- %s\nCONSTANT Mode = \"%%s\"" % ("NilRefs" if reserved else "NoRefs"))
-        start = 0; rnd = 0
+        start = 0; rnd = 0; rejected = 0
         while start < len(hs):
+            if rejected >= 4:
+                res.cov.setdefault("notes", []).append("validation of the %s group stopped after %d rejected histories; %d histories were not validated"
+                                                       % ("reserved" if reserved else "unreserved", rejected, len(hs) - start))
+                break
             events = []; owner = []
             for hi in range(start, len(hs)):
                 owner += [hi] * len(hs[hi][1])
@@ -299,6 +307,7 @@ def validate_group(res, wd, histories, reserved):
                     if len(res.cov["eager_fallback_examples"]) < 3:
                         res.cov["eager_fallback_examples"].append({"history": desc, "eager stopped at": _short(events[min(consumed, len(events) - 1)])})
             else:
+                rejected += 1
                 at = min(cons2, len(hev) - 1)
                 path = _save(wd, "rejected_%d_%d" % (int(reserved), hi), [job] if job else [desc] + [repr(e) for e in hev])
                 res.violations.append(("history of the real interning table rejected by spec/InternAbs.tla at event %d %s (%s; preceding events %s)"
